@@ -55,6 +55,15 @@ def gen_tree(rng, depth=0):
     return t
 
 
+def canon_unordered(t):
+    """Type-exact canonical form that ignores the order of map keys."""
+    if isinstance(t, dict):
+        return ("map", sorted(((canon(k), canon_unordered(v)) for k, v in t.items()), key=repr))
+    if isinstance(t, (list, tuple)):
+        return (type(t).__name__, [canon_unordered(x) for x in t])
+    return canon(t)
+
+
 class IncludeScenario(Scenario):
     name = "includes"
     max_ops = 12
@@ -112,10 +121,63 @@ class IncludeScenario(Scenario):
         st.h = header
         for d in ("/data", "/data/sub", "/inc", "/inc/sub", "/work/rel", "/work/rel/sub", "/work/sub", "/home/sim/sub", "/data/adir"):
             world.dirs.add(d)
+        st.root = copy.deepcopy(header["root"])
         st.schema = self.build(st)
         st.cfg = st.schema()
         st.twin_schema = self.build(st)
         return st
+
+    # ------------------------------------------------------------------ schemas are built dynamically: they may grow
+    def scopes(self, s, path=()):
+        yield path, s
+        for k, sub in s["subs"].items():
+            yield from self.scopes(sub, path + (k,))
+
+    def gen_grow(self, st, rng):
+        cands = [(p, s) for p, s in self.scopes(st.root) if len(p) < 3]
+        path, s = rng.choice(cands)
+        inc = {"key": "inc%d" % (len(s["includes"]) + 7), "startdir": rng.choice(STARTDIRS)}
+        free = [k for k in ("s3", "s4") if k not in s["subs"]]
+        if free and rng.random() < 0.7:
+            return {"op": "grow", "at": list(path), "sub": rng.choice(free), "inc": dict(inc, key="inc0"), "how": rng.choice(["attr", "item", "schema-first"])}
+        return {"op": "grow", "at": list(path), "sub": None, "inc": inc, "how": rng.choice(["attr", "item"])}
+
+    def do_grow(self, st, op, rec):
+        """A sub-schema with an include field, or one more include field, is declared after the schema has been used."""
+        s = st.root
+        for k in op["at"]:
+            s = s["subs"].get(k) if s else None
+        if s is None or (op["sub"] and op["sub"] in s["subs"]) or (not op["sub"] and any(i["key"] == op["inc"]["key"] for i in s["includes"])):
+            rec.log("grow", "skip")
+            return
+        for root in (st.schema, st.twin_schema):
+            sch = root
+            for k in op["at"]:
+                sch = sch._fields[k]
+            fld = cc.IncludeField(startdir=op["inc"]["startdir"])
+            if op["sub"] is None:
+                if op["how"] == "attr":
+                    setattr(sch, op["inc"]["key"], fld)
+                else:
+                    sch[op["inc"]["key"]] = fld
+            elif op["how"] == "attr":
+                setattr(getattr(sch, op["sub"]), op["inc"]["key"], fld)      # the sub-schema comes into being on first access
+                sch._fields[op["sub"]]._dynamic = True
+            elif op["how"] == "item":
+                sch[op["sub"] + "." + op["inc"]["key"]] = fld
+                sch._fields[op["sub"]]._dynamic = True
+            else:
+                child = cc.Schema(dynamic=True)
+                sch[op["sub"]] = child
+                child[op["inc"]["key"]] = fld
+        if op["sub"] is None:
+            s["includes"].append(dict(op["inc"]))
+        else:
+            s["subs"][op["sub"]] = {"includes": [dict(op["inc"])], "subs": {}, "subs_first": False}
+        st.cfg = st.schema()
+        st.serials = None
+        rec.log("grow", op["at"], op["sub"], op["inc"]["key"], op["how"])
+        rec.probe("schema-grown:" + ("sub-schema" if op["sub"] else "include-field"))
 
     # ------------------------------------------------------------------ path model
     def resolve(self, st, inc, value):
@@ -133,6 +195,8 @@ class IncludeScenario(Scenario):
             return {"op": "combine", "base": gen_tree(rng), "child": gen_tree(rng)}
         if r < 0.25:
             return {"op": "chdir", "to": rng.choice(["/work", "/data", "/inc", "/work/rel"])}
+        if r < 0.33 and getattr(st, "loads", 0):
+            return self.gen_grow(st, rng)
         fmt = rng.choice(ops.FORMATS)
         files = {}
 
@@ -165,7 +229,7 @@ class IncludeScenario(Scenario):
                         fill(sub, t, depth + 1)
 
         main = gen_tree(rng)
-        fill(st.h["root"], main, 0)
+        fill(st.root, main, 0)
         # files referenced from included content (chains, nested scopes named by an included file): walk the
         # documents the way the documented processing order does and give (most of) the missing files content
         def missing(s, tree, acc):
@@ -185,7 +249,7 @@ class IncludeScenario(Scenario):
 
         for _ in range(3):
             acc = []
-            missing(st.h["root"], main, acc)
+            missing(st.root, main, acc)
             if not acc:
                 break
             for p in acc:
@@ -223,7 +287,10 @@ class IncludeScenario(Scenario):
             return
         if op["op"] == "combine":
             self.do_combine(st, op, rec)
+        elif op["op"] == "grow":
+            self.do_grow(st, op, rec)
         else:
+            st.loads = getattr(st, "loads", 0) + 1
             self.do_load(st, op, rec)
 
     def do_combine(self, st, op, rec):
@@ -239,7 +306,7 @@ class IncludeScenario(Scenario):
         if base != b0 or child != c0:
             rec.fail("C18/merge", "C18/combine-mutates-input/%s" % ("base" if base != b0 else "child"), "combine_trees changed its %s argument" % ("base" if base != b0 else "child"))
         want = ref_merge(b0, c0)
-        if canon(out) != canon(want):
+        if out != want or canon_unordered(out) != canon_unordered(want):     # key order is not part of the statement
             rec.fail("C18/merge", "C18/combine-differs-from-deep-merge", "combine_trees(%r, %r) = %r, deep merge gives %r" % (b0, c0, out, want))
         rec.probe("combine")
 
@@ -318,7 +385,7 @@ class IncludeScenario(Scenario):
         # reference
         trace = []
         try:
-            want = self.ref_process(st, st.h["root"], copy.deepcopy(main), fmt, trace)
+            want = self.ref_process(st, st.root, copy.deepcopy(main), fmt, trace)
             ref_err = None
         except SeamGap:
             raise
@@ -390,7 +457,7 @@ class IncludeScenario(Scenario):
                 rec.fail("C18/equivalence", "C18/differs-from-merged-tree/%s" % ("nested-scope" if "." in d[0] else "root-scope"),
                          "after loading with includes %s holds %r; loading the reference-merged tree gives %r" % (d[0], d[2], d[1]))
             rec.probe("include-merged:%d" % min(len(trace), 3))
-            if any("." in p for p in self.include_paths(st.h["root"], main, "")):
+            if any("." in p for p in self.include_paths(st.root, main, "")):
                 rec.probe("include-in-nested-scope")
 
     def include_paths(self, s, tree, prefix):
